@@ -27,6 +27,8 @@ ok_tests = all("52 passed; 0 failed" in r for r in runs)
 print(pid, k, "demo without patch rc=%d, with patch rc=%d, tests: %s" % (rc0, rc1, runs))
 if rc0 == 0 and rc1 != 0 and ok_tests:
     dst = "/verif/seeded/%s-%s" % (pid, k)
+    if os.path.exists(dst + "/meta.json") and json.load(open(dst + "/meta.json")).get("title") != meta.get("title"):
+        raise SystemExit("refusing to overwrite %s (another change is stored there)" % dst)
     os.makedirs(dst, exist_ok=True)
     shutil.copy(out + "/patch.diff", dst + "/patch.diff")
     ddir = dst + "/demo"
